@@ -66,14 +66,14 @@ class NodeCtl:
 
 
 class Net:
-    def __init__(self, horizon_ms=120000, destructive=False, medium_cls=Medium, spi_budget=6_000_000):
+    def __init__(self, horizon_ms=120000, destructive=False, medium_cls=Medium, spi_budget=6_000_000, id0=0):
         self.sim = Sim(horizon_ns=horizon_ms * MS, spi_budget=spi_budget)
         self.med = medium_cls(self.sim)
         self.med.destructive = destructive
         self.ctl = {}
         self.last_activity = 0
         self.L = boot.lib()
-        boot.reset_frame_ids()
+        boot.reset_frame_ids(id0)
 
     def add(self, key, kind, arg, mcu=None, trace=False, **attrs):
         """kind: net | router | mesh | meshnm; arg: node address or node id"""
@@ -205,3 +205,27 @@ def power_loss(net, key):
     c.chip._config_written()
     if c.task is not None and c.task.idle:
         c.task.wake = min(c.task.wake, net.sim.now)
+
+
+# starting values of the library's process-wide 16-bit frame-id counter: a program that has been running for a while
+# is anywhere in the range, and the counter wraps
+ID0S = [0, 0xFFFF, 0xFFFD, 0xFFF0, 0x00FE, 0x0100, 0x7FFF, 0x8000, 0xFEFF]
+
+
+def with_id0(part):
+    """the same part with a starting frame-id counter added to every case (`id0`, read by run_case):
+    enumerations cycle through ID0S, generated cases draw from ID0S or the whole range"""
+    from vlib.harness.runner import Part
+    src = part.source
+    if part.kind == "enum":
+        def source():
+            for i, c in enumerate(src()):
+                yield dict(c, id0=ID0S[(i * 7 + i // 9) % len(ID0S)]) if "id0" not in c else c
+    elif part.kind == "gen":
+        def source():
+            from hypothesis import strategies as st
+            ids = st.one_of(st.sampled_from(ID0S), st.integers(0, 0xFFFF))
+            return src().flatmap(lambda c: ids.map(lambda i: dict(c, id0=i) if "id0" not in c else c))
+    else:
+        return part
+    return Part(part.name, part.kind, source, n=part.n, exhaustive=part.exhaustive, weight=part.weight)
